@@ -39,9 +39,10 @@ pub enum Surface {
     Commitments,
     TextParsers,
     Metadata,
+    IntArgs,
 }
 
-pub const SURFACES: [Surface; 13] = [
+pub const SURFACES: [Surface; 14] = [
     Surface::AddressText,
     Surface::Blech32Text,
     Surface::ScriptBytes,
@@ -55,6 +56,7 @@ pub const SURFACES: [Surface; 13] = [
     Surface::Commitments,
     Surface::TextParsers,
     Surface::Metadata,
+    Surface::IntArgs,
 ];
 
 #[derive(Clone, Debug, Serialize, Deserialize)]
@@ -354,6 +356,12 @@ impl SurfaceWorld {
             ctx.call("BlockHeader::accessors", n, || (h.block_hash(), h.is_dynafed(), h.calculate_dynafed_params_root(), h.dynafed_current().map(|p| (p.calculate_root(), p.is_null(), p.is_compact(), p.is_full(), p.elided_root().copied(), p.clone().into_compact().is_some()))));
             let mut h2 = h.clone();
             ctx.call("BlockHeader::clear_witness", n, || h2.clear_witness());
+            for par in [h.dynafed_current(), h.dynafed_proposed()].into_iter().flatten() {
+                ctx.call("Params::accessors", n, || (par.fedpeg_program().map(|s| s.len()), par.fedpegscript().map(|s| s.len()), par.extension_space().map(|s| s.len()), par.full().is_some(), par.signblockscript().map(|s| s.len()), par.signblock_witness_limit(), par.elided_root().is_some()));
+                let (p1, p2) = (par.clone(), par.clone());
+                ctx.call("Params::into_full", n, || p1.into_full().map(|f| f.into_compact().calculate_root()));
+                ctx.call("Params::into_compact", n, || p2.into_compact().map(|c| c.calculate_root()));
+            }
         }
     }
     fn pset_text(&self, ctx: &mut Ctx, s: &str) {
@@ -485,6 +493,39 @@ impl SurfaceWorld {
         if let Some(o) = tx.output.first() {
             ctx.call("TxOut::to_non_last_confidential", 0, || o.to_non_last_confidential(&mut rng, secp(), *p.pick(&gen::pool().pks), &secrets).is_ok());
         }
+        {
+            use elements::SurjectionInput;
+            let dom: Vec<SurjectionInput> = (0..p.usize_below(5))
+                .map(|_| match p.below(4) {
+                    0 => SurjectionInput::Unknown(Asset::Null),
+                    1 => SurjectionInput::Unknown(gen::asset(&mut p, gen::Conf::Confidential)),
+                    2 => SurjectionInput::Unknown(gen::asset(&mut p, gen::Conf::Explicit)),
+                    _ => SurjectionInput::Known { asset: gen::asset_id(&mut p), asset_bf: if p.coin() { AssetBlindingFactor::zero() } else { gen::abf(&mut p) } },
+                })
+                .collect();
+            for d in &dom {
+                ctx.call("SurjectionInput::surjection_target", 0, || d.surjection_target(secp()).is_ok());
+            }
+            let a = gen::asset_id(&mut p);
+            let v = p.u64() >> p.below(64);
+            let pk = *p.pick(&gen::pool().pks);
+            let spk = gen::script(&mut p, 40);
+            let os = TxOutSecrets::new(a, if p.coin() { AssetBlindingFactor::zero() } else { gen::abf(&mut p) }, v, if p.coin() { ValueBlindingFactor::zero() } else { gen::vbf(&mut p) });
+            let esk = gen::secret_key(&mut p);
+            ctx.call("TxOut::with_txout_secrets", 0, || TxOut::with_txout_secrets(&mut rng, secp(), spk.clone(), pk, esk, os, &dom).is_ok());
+            let addr = Address { params: params(p.u64()), payload: elements::address::Payload::ScriptHash(elements::ScriptHash::from_byte_array([3u8; 20])), blinding_pubkey: if p.chance(3, 4) { Some(pk) } else { None } };
+            ctx.call("TxOut::new_not_last_confidential", 0, || TxOut::new_not_last_confidential(&mut rng, secp(), v, &addr, a, &dom).is_ok());
+            let refs: Vec<&TxOutSecrets> = secrets.iter().rev().collect();
+            ctx.call("TxOut::with_secrets_last", 0, || TxOut::with_secrets_last(&mut rng, secp(), v, spk.clone(), pk, a, esk, gen::abf(&mut Prng::from_u64(seed)), &secrets, &refs).is_ok());
+            ctx.call("Asset::blind", 0, || Asset::Explicit(a).blind(&mut rng, secp(), gen::abf(&mut Prng::from_u64(seed)), &dom).is_ok());
+            ctx.call("Asset::into_asset_gen", 0, || (Asset::Null.into_asset_gen(secp()).is_some(), Asset::Explicit(a).into_asset_gen(secp()).is_some()));
+            ctx.call("Nonce::shared_secret", 0, || (Nonce::Null.shared_secret(&esk).is_some(), Nonce::Confidential(pk).shared_secret(&esk).is_some(), Nonce::Explicit([1u8; 32]).shared_secret(&esk).is_some()));
+            for i in tx.input.iter().take(2) {
+                let mut i2 = i.clone();
+                let (v1, v2) = (if p.coin() { ValueBlindingFactor::zero() } else { gen::vbf(&mut p) }, gen::vbf(&mut p));
+                ctx.call("TxIn::blind_issuances_with_bfs", 0, || i2.blind_issuances_with_bfs(secp(), v1, v2, esk, esk).is_ok());
+            }
+        }
         let a = gen::asset_id(&mut p);
         ctx.call("TxOut::new_last_confidential", 0, || {
             let refs: Vec<&TxOutSecrets> = secrets.iter().collect();
@@ -551,6 +592,40 @@ impl SurfaceWorld {
         ctx.call("PsbtSighashType::from_str", n, || elements::pset::PsbtSighashType::from_str(s).is_ok());
         ctx.call("Script::from_hex", n, || (Script::from_hex(s).is_ok(), Script::from_hex_no_prefix(s).is_ok()));
         ctx.call("ContractHash::from_json_contract", n, || elements::ContractHash::from_json_contract(s).is_ok());
+    }
+    /// fallible constructors that take plain integers, and the raw PSET key helpers
+    fn int_args(&self, ctx: &mut Ctx, seed: u64) {
+        use elements::locktime::{Height, Time};
+        use elements::{LockTime, Sequence};
+        let mut p = Prng::from_u64(seed);
+        let edge = [0u32, 1, 511, 512, 513, 0xffff, 0x10000, 33_553_920, 33_553_921, 33_554_431, 33_554_432, 499_999_999, 500_000_000, 500_000_001, 0x7fff_ffff, 0x8000_0000, u32::MAX - 511, u32::MAX - 1, u32::MAX];
+        for _ in 0..4 {
+            let n = if p.coin() { *p.pick(&edge) } else { p.u32() };
+            ctx.call("Sequence::from_seconds_floor", 0, || Sequence::from_seconds_floor(n).is_ok());
+            ctx.call("Sequence::from_seconds_ceil", 0, || Sequence::from_seconds_ceil(n).is_ok());
+            ctx.call("Sequence::from_512_second_intervals", 0, || Sequence::from_512_second_intervals(n as u16).to_consensus_u32());
+            ctx.call("Sequence::from_height", 0, || Sequence::from_height(n as u16).to_consensus_u32());
+            ctx.call("Sequence::predicates", 0, || { let s = Sequence::from_consensus(n); (s.is_final(), s.is_rbf(), s.is_relative_lock_time(), s.is_height_locked(), s.is_time_locked(), s.enables_absolute_lock_time()) });
+            ctx.call("LockTime::from_height", 0, || LockTime::from_height(n).is_ok());
+            ctx.call("LockTime::from_time", 0, || LockTime::from_time(n).is_ok());
+            ctx.call("LockTime::from_consensus", 0, || { let l = LockTime::from_consensus(n); (l.is_block_height(), l.is_block_time(), l.to_consensus_u32(), l.to_string().len()) });
+            ctx.call("Height::from_consensus", 0, || Height::from_consensus(n).map(|h| h.to_consensus_u32()).is_ok());
+            ctx.call("Time::from_consensus", 0, || Time::from_consensus(n).map(|h| h.to_consensus_u32()).is_ok());
+            let s = if p.coin() { n.to_string() } else { format!("{}{}", n, p.below(100_000)) };
+            ctx.call("Height::from_str", s.len(), || (Height::from_str(&s).is_ok(), Time::from_str(&s).is_ok(), Height::try_from(s.as_str()).is_ok(), Time::try_from(s.clone()).is_ok()));
+            let m = if p.coin() { *p.pick(&edge) } else { p.u32() };
+            ctx.call("LockTime::is_satisfied_by", 0, || { let (a, b) = (LockTime::from_consensus(n), LockTime::from_consensus(m)); (a.is_same_unit(b), a.is_satisfied_by(Height::from_consensus(m % 500_000_000).unwrap(), Time::from_consensus(500_000_000 + m % 1_000_000).unwrap()), a.partial_cmp(&b).is_some()) });
+            let b = p.u8();
+            ctx.call("opcodes::All::classify", 0, || { let o = elements::opcodes::All::from(b); (format!("{:?}", o).len(), elements::opcodes::Ordinary::try_from_all(o).is_some(), o.classify(elements::opcodes::ClassifyContext::Legacy)) });
+            // (All::classify in the TapScript context panics for OP_CHECKSIGADD and the Elements tapscript opcodes 0xc0, 0xc4..0xe4; it
+            // does not report failure through Result/Option and no fallible API reaches it, so it is outside C10: DESIGN 11.6)
+            ctx.call("LeafVersion::from_u8", 0, || LeafVersion::from_u8(b).map(|v| v.as_u8()).is_ok());
+            ctx.call("SchnorrSighashType::from_u8", 0, || (elements::SchnorrSighashType::from_u8(b).is_some(), elements::EcdsaSighashType::from_standard(n).is_ok(), elements::EcdsaSighashType::from_u32(n).as_u32()));
+        }
+        // raw PSET keys
+        use elements::pset::raw;
+        let key = raw::Key { type_value: if p.coin() { 0xFC } else { p.u8() }, key: { let n = p.usize_below(40); let mut k = p.bytes(n); if p.coin() && !k.is_empty() { k[0] = (k.len() - 1).min(4) as u8; } k } };
+        ctx.call("ProprietaryKey::from_key", key.key.len(), || raw::ProprietaryKey::<raw::ProprietaryType>::from_key(&key).map(|k| k.to_key().key.len()).is_ok());
     }
     fn metadata(&self, ctx: &mut Ctx, b: &[u8]) {
         use elements::pset::elip100::{AssetMetadata, TokenMetadata};
@@ -648,7 +723,12 @@ impl World for SurfaceWorld {
             }
             Surface::BlockAccessors => {
                 let s = spec_small(p);
-                let base = encode::serialize(&gen::block(p.u64(), p.usize_below(3), &s));
+                let n = p.u32();
+                let base = match crate::corpus::nth(crate::corpus::Kind::Block, n) {
+                    // one in four: a real block of the repository's vectors
+                    Some(i) if p.chance(1, 4) => crate::corpus::get().bytes(i).to_vec(),
+                    _ => encode::serialize(&gen::block(p.u64(), p.usize_below(3), &s)),
+                };
                 (None, Some(if p.chance(1, 3) { base } else { mutate_bytes(p, &base) }))
             }
             Surface::Metadata => {
@@ -656,7 +736,7 @@ impl World for SurfaceWorld {
                 let base = if p.coin() { AssetMetadata::new("{\"name\":\"x\"}".into(), elements::OutPoint::new(gen::txid(p), 1)).serialize() } else { TokenMetadata::new(gen::asset_id(p), p.coin()).serialize() };
                 (None, Some(if p.chance(1, 4) { base } else { mutate_bytes(p, &base) }))
             }
-            Surface::PsetOps | Surface::BlindOps | Surface::TaprootBuilderOps => (None, None),
+            Surface::PsetOps | Surface::BlindOps | Surface::TaprootBuilderOps | Surface::IntArgs => (None, None),
         };
         Case { surface, seed, text, bytes }
     }
@@ -684,6 +764,7 @@ impl World for SurfaceWorld {
             Surface::Commitments => self.commitments(ctx, b),
             Surface::TextParsers => self.text_parsers(ctx, s),
             Surface::Metadata => self.metadata(ctx, b),
+            Surface::IntArgs => self.int_args(ctx, case.seed),
         }
         ctx.sig_n("viol", ctx.violations.len() as u64);
     }
